@@ -37,7 +37,7 @@ Inductive outcome :=
 | OSendErr                               (* adapter: Write/Flush error; NATS: PublishRequest error *)
 | ONotOpen                               (* NATS: !IsOpen() *)
 | OEmpty                                 (* NATS: len(data) == 4: (nil, nil) *)
-| ORegErr                                (* NATS: Register's error (op id in flight) returned *)
+| ORegErr                                (* NATS: Register's error (op id in flight, or malformed) returned *)
 | ONotAvail                              (* NATS: the result is serviceNotAvailable *)
 | OTooLarge.                             (* NATS: checkMessageSize failed (after Register) *)
 Inductive cphase :=
@@ -129,8 +129,10 @@ Definition step (tk : kind) (blocking : bool) (s : st) (e : ev) : option st :=
     | CNew =>
       match tk with
       | KAdapter =>
-        (* Register: an op id already in flight is an error, which the adapter transport ignores *)
-        let r := match reg_lookup (reg s) (c_op c) with
+        (* Register: a malformed op id (modelled as a negative number; getOpID fails) or an op id
+           already in flight is an error, which the adapter transport ignores; nothing is registered *)
+        let r := if c_op c <? 0 then reg s else
+                 match reg_lookup (reg s) (c_op c) with
                  | Some _ => reg s
                  | None => (c_op c, i) :: reg s
                  end in
@@ -139,6 +141,8 @@ Definition step (tk : kind) (blocking : bool) (s : st) (e : ev) : option st :=
         match c_data c with
         | DEmpty => Some (with_callers s (upd (callers s) i (set_phase c (CDone OEmpty))))
         | _ =>
+          if c_op c <? 0 then  (* malformed op id: Register refuses it *)
+            Some (with_callers s (upd (callers s) i (set_phase c (CDone ORegErr)))) else
           match reg_lookup (reg s) (c_op c) with
           | Some _ => (* Register fails; returned BEFORE the deferred Unregister is installed *)
             Some (with_callers s (upd (callers s) i (set_phase c (CDone ORegErr))))
